@@ -29,7 +29,7 @@ LEVEL_NOTE = ("fake API channel (backlog kept far below RECEIVER_MAX_SIZE); the 
               "harness lets the loop go idle; otherwise contiguity from the observed start is asserted")
 RULE = ("seeded schedules; distinct = canonical schedule JSON; non-trivial = >=2 subscriptions arriving at different "
         "message indices (i.e. >=1 hand-over while an existing stream is live)")
-REQUIRED_BUCKETS = ["requests-that-differ-only-in-start-time",
+REQUIRED_BUCKETS = ["request-for-a-metric-the-component-kind-does-not-have", "requests-that-differ-only-in-start-time",
                     "kind:meter", "kind:inverter", "kind:battery", "kind:ev", "kind:pipeline", "pipeline-burst>50", "subscription-before-first-message",
                     "subscription-between-messages", "back-to-back-requests", "duplicate-request",
                     "unknown-component-request", "hand-over-with-live-stream", "two-namespaces-same-metric"]
@@ -130,7 +130,8 @@ def gen(rng: Any, tier: str, i: int) -> Any:
     for _ in range(rng.randint(1, 8)):
         subs.append([rng.choice([0, 0, rng.randint(0, nmsg - 3)]), rng.choice(["a", "b"]), rng.randrange(nm),
                      rng.random() < 0.3, rng.random() < 0.2, rng.choice([0, 0, 1, 3, 20]),
-                     rng.choice([None, None, None, 0, 1])])  # start_time of the request: part of the stream's identity
+                     rng.choice([None, None, None, 0, 1]),  # start_time of the request: part of the stream's identity
+                     rng.random() < 0.12])  # followed by a request for a metric this kind of component does not have
     if rng.random() < 0.4 and len(subs) >= 2:
         at = subs[0][0]
         for s in subs[: rng.randint(2, len(subs))]:
@@ -184,6 +185,12 @@ async def _drive(case: dict[str, Any], out: dict[str, Any]) -> None:
                 await rtx.send(req)
             if unknown:
                 await rtx.send(ComponentMetricRequest(ns, 999, mets[mi], None))
+            if len(subs[si]) > 7 and subs[si][7]:
+                # an invalid request, like the one for an unknown component: it yields nothing and disturbs nothing
+                from frequenz.client.microgrid import ComponentMetricId as _M
+
+                foreign = _M.SOC if kind != "battery" else _M.ACTIVE_POWER
+                await rtx.send(ComponentMetricRequest(ns, CID, foreign, None))
             for _ in range(yields):
                 await asyncio.sleep(0)
             si += 1
@@ -295,6 +302,8 @@ def check(case: dict[str, Any], rec: Any) -> None:
         rec.bucket("duplicate-request")
     if any(s[4] for s in subs):
         rec.bucket("unknown-component-request")
+    if any(len(s) > 7 and s[7] for s in subs):
+        rec.bucket("request-for-a-metric-the-component-kind-does-not-have")
     ats = [s[0] for s in subs]
     if len(ats) != len(set(ats)) and any(s[5] == 0 for s in subs):
         rec.bucket("back-to-back-requests")
